@@ -721,7 +721,7 @@ func (sr *SessionRun) Summary() string {
 	for i, r := range sr.Recs {
 		fmt.Fprintf(&sb, "op %d %-12s %v..%v class=%q err=%v skipped=%v delivered=%d emitted=%d devmode=%s clean=%v\n", i, r.Kind, r.Start, r.End, r.Class, r.Err, r.Skipped, r.DeliveredAtEnd, r.EmittedAtEnd, r.DevMode, r.DevLineClean)
 	}
-	fmt.Fprintf(&sb, "resume at %v; transport: %d reads, %d writes, last byte at %v, faults %v\n", sr.ResumeT, len(sr.Tr.Reads), len(sr.Tr.Writes), sr.Tr.LastByteAt, sr.Tr.FaultFired)
+	fmt.Fprintf(&sb, "resume at %v; transport: %d reads, %d writes, last byte at %v, faults %v\n", sr.ResumeT, len(sr.Tr.Reads), len(sr.Tr.Writes), sr.Tr.LastByteAt, sr.Tr.Faults())
 
 	return sb.String()
 }
